@@ -51,7 +51,7 @@ var alphabet = []pt{
 	{"b", "f1", 0, 8, ""},
 	{"b", "f2", 0, 16, ""},
 	{"b", "f2", 1, 32, ""},
-	{"c", "f1", 1, 64, ""},
+	{"c", "f1", 3, 64, ""}, // slot 3: with group by time(20s) a second query bucket (its timestamp depends on the interval the answer carries)
 	{"c", "f2", 0, 128, ""},
 	// host b again, but another series (dc=2) that reports only f2: the group host=b then exists on two shards with
 	// different field sets (one node creates the group without f2, another one brings f2 for it later)
